@@ -274,7 +274,15 @@ def parseCaseLine (cs : Case) (line : String) : Case :=
     | _, _ => cs
   | ["dep", i, "file", p] =>
     match i.toNat? with
-    | some i => { cs with recs := cs.recs ++ [(i, DepRec.file p)] }
+    | some i => { cs with recs := cs.recs ++ [(i, DepRec.path .File p)] }
+    | none => cs
+  | ["dep", i, "path", k, p] =>          -- any path-equality kind by its Rust name (Regex, RegexItems, Lines, LineItems, Param, ..)
+    match i.toNat?, DepKind.ofName k with
+    | some i, some k => { cs with recs := cs.recs ++ [(i, DepRec.path k p)] }
+    | _, _ => cs
+  | ["dep", i, "globitems", g, recorded] =>   -- recorded items comma separated, `-` for none
+    match i.toNat? with
+    | some i => { cs with recs := cs.recs ++ [(i, DepRec.globItems g (if recorded == "-" then [] else recorded.splitOn ","))] }
     | none => cs
   | ["dep", i, "glob", p] =>
     match i.toNat? with
@@ -318,6 +326,25 @@ partial def loopValidate (stdin stdout : IO.FS.Stream) (cs : Case) (inTrace : Bo
   else if l == "trace-begin" then loopValidate stdin stdout cs true
   else loopValidate stdin stdout (parseCaseLine cs l) false
 
+/-- `schedmodel edge`: one question per line `<Kind> <pattern or path> <recorded items, comma separated, or -> <output path>`
+    -> `true` | `false`: does the model's `dependencies_to_path` produce the edge? -/
+def edgeLine (line : String) : String :=
+  match line.trimAscii.toString.splitOn " " with
+  | [k, pat, recorded, out] =>
+    match DepKind.ofName k with
+    | some kind =>
+      let rec_ := if recorded == "-" then [] else recorded.splitOn ","
+      let r : DepRec := if kind == .Glob then .glob pat else if kind == .GlobItems then .globItems pat rec_ else .path kind pat
+      if r.reads out then "true" else "false"
+    | none => "unknown-kind"
+  | _ => "bad-line"
+
+partial def loopEdge (stdin stdout : IO.FS.Stream) : IO Unit := do
+  let line ← stdin.getLine
+  if line.isEmpty then return ()
+  stdout.putStrLn (edgeLine line)
+  loopEdge stdin stdout
+
 partial def loopAcyclic (stdin stdout : IO.FS.Stream) : IO Unit := do
   let line ← stdin.getLine
   if line.isEmpty then return ()
@@ -330,4 +357,5 @@ def main (args : List String) : IO UInt32 := do
   match args with
   | ["sched-validate"] => loopValidate stdin stdout {} false; return 0
   | ["acyclic"] => loopAcyclic stdin stdout; return 0
-  | _ => IO.eprintln "usage: schedmodel sched-validate | acyclic"; return 2
+  | ["edge"] => loopEdge stdin stdout; return 0
+  | _ => IO.eprintln "usage: schedmodel sched-validate | acyclic | edge"; return 2
